@@ -265,7 +265,25 @@ def blockVerdict (half premult : Bool) (W H : Nat) (px : Array Pix8) (bw bh : Na
                       if 2 * y + 1 < ph then (srcUnder ph (2 * y + 1)).any fun b =>
                         c.bg == colourOf ⟨(t.r + b.r) / 2, (t.g + b.g) / 2, (t.b + b.b) / 2, 255⟩
                       else c.bg == colourOf t
-                if allOpaque && !premult && W * H > 0 then
+                -- translucent `*image.NRGBA` sources, half block (round 3; `Props.C20Pixels.translucent_scaled`): the scaler keeps
+                -- the alpha exactly, so the glyph follows the thresholds on the alphas of two source pixels under the cell,
+                -- and each colour shown is that pixel's colour with every channel lowered by at most 255/a + 1
+                let near2 (a c c' : Nat) : Bool := c' ≤ c && (c - c') * a ≤ 255 + a
+                let colNear (p : Pix8) (v : Nat) : Bool :=
+                  v / 2 ^ 24 == 2 && near2 p.a p.r (v / 65536 % 256) && near2 p.a p.g (v / 256 % 256) && near2 p.a p.b (v % 256)
+                let cellOk (t b : Pix8) : Bool :=
+                  if t.a < 50 && b.a < 50 then c.glyph == "20" && c.fg == 0 && c.bg == 0
+                  else if t.a < 50 then c.glyph == "e29684" && c.bg == 0 && colNear b c.fg
+                  else if b.a < 50 then c.glyph == "e29680" && c.bg == 0 && colNear t c.fg
+                  else c.glyph == "e29680" && colNear t c.fg && colNear b c.bg
+                let okTranslucent (ph : Nat) : Bool :=
+                  (srcUnder ph (2 * y)).any fun t =>
+                    if 2 * y + 1 < ph then (srcUnder ph (2 * y + 1)).any fun b => cellOk t b
+                    else cellOk t ⟨0, 0, 0, 0⟩
+                if half && !allOpaque && !premult && W * H > 0 then
+                  if okTranslucent (2 * chh) || okTranslucent (2 * chh - 1) then go rest (n + 1)
+                  else some s!"cell {c.x},{c.y}: {c.glyph}/{c.fg}/{c.bg} is not what two source pixels under the cell give (alpha kept, channels within 255/a+1)"
+                else if allOpaque && !premult && W * H > 0 then
                   if half ∧ c.glyph ≠ "e29680" then some s!"cell {c.x},{c.y}: rescaled opaque image, glyph is not the upper half block"
                   else if ¬ half ∧ (c.glyph ≠ "20" ∨ c.fg ≠ 0) then some s!"cell {c.x},{c.y}: not a space with default foreground"
                   else if !(okFor (2 * chh) || okFor (2 * chh - 1)) then
